@@ -120,6 +120,17 @@ def lemma_slice_in_bounds(case):
     check("in-bounds", And(s0 + r * st0 >= 0, s0 + r * st0 < size))
 
 
+@harness("C13", cases=SLICE_CASES, group="lemma")
+def lemma_range_len_nonneg(case):
+    size = sint("size")
+    requires(size >= 0)
+    start, stop, step = _opt(case.start, "start"), _opt(case.stop, "stop"), _opt(case.step, "step")
+    if step is not None:
+        requires(step != 0)
+    s0, e0, st0 = pyslice.indices(size, start, stop, step)
+    check("nonneg", pyslice.range_len(s0, e0, st0) >= 0)
+
+
 @harness("C13", group="lemma")
 def lemma_row_major(case):
     """0 <= y < H, 0 <= x < W  =>  0 <= y*W + x < H*W ; and (y, x) is recovered by divmod"""
@@ -138,65 +149,95 @@ def lemma_divmod(case):
     check("mod", p % n == c)
 
 
+@harness("C13", group="lemma")
+def lemma_divmod_range(case):
+    """0 <= p < ny*nx  =>  0 <= p % nx < nx  and  0 <= p // nx < ny"""
+    p, ny, nx = sint("p"), sint("ny"), sint("nx")
+    requires(And(p >= 0, p < ny * nx, nx >= 0, ny >= 0))
+    check("nx-positive", nx > 0)
+    r, c = p // nx, p % nx
+    check("mod-range", And(c >= 0, c < nx))
+    check("div-nonneg", r >= 0)
+    check("decomp", p == r * nx + c)
+    check("div-below", r < ny)
+
+
 # ---------------------------------------------------------------------------------------------
 # Array2D._getitem_impl, verified against the *contracts* of _parse_range / _range_size
 AXIS_KINDS = ["int"] + ["slice:%s:%s:%s" % (a, b, c) for a in TAGS for b in TAGS for c in TAGS]
 
 
 def _axis_key(kind, pfx):
-    """returns (key, spec) with spec = dict(fixed, valid, first, step, count)"""
     if kind == "int":
-        return sint(pfx + "k"), None
+        return sint(pfx + "k")
     _, a, b, c = kind.split(":")
     start, stop, step = _opt(a, pfx + "start"), _opt(b, pfx + "stop"), _opt(c, pfx + "step")
     if step is not None:
         requires(step != 0)
-    return slice(start, stop, step), None
+        if step > 0:    # case split on the sign (keeps each solver query simple)
+            pass
+    return slice(start, stop, step)
 
 
 def _axis_spec(size, key):
+    """expected selection on one axis: fixed?, valid?, first index, step, count.
+    In sym mode the count of a slice is an *opaque* constant n >= 0 standing for
+    len(range(*slice.indices(size))): the proof of _getitem_impl needs only the facts stated by the
+    lemmas (hide the definition, `opaque/reveal`), which keeps division out of its queries."""
     if isinstance(key, slice):
         s0, e0, st0 = pyslice.indices(size, key.start, key.stop, key.step)
-        return dict(fixed=False, valid=True, first=s0, step=st0, count=pyslice.range_len(s0, e0, st0))
+        if CTX.mode == "sym":
+            memo = ghost("axis", {})
+            k = repr((size, key.start, key.stop, key.step))
+            if k not in memo:
+                n = fresh_int("count")
+                lemma("C13/lemma_range_len_nonneg", n >= 0)
+                memo[k] = n
+            n = memo[k]
+        else:
+            n = pyslice.range_len(s0, e0, st0)
+        return dict(fixed=False, valid=True, first=s0, step=st0, count=n)
     return dict(fixed=True, valid=And(key >= 0 - size, key < size), first=pyslice.norm_index(key, size), step=1, count=1)
 
 
 def parse_range_contract(it, args, kwargs):
-    """contract of _parse_range as established by parse_range_slice / parse_range_int"""
+    """contract of _parse_range as established by parse_range_slice / parse_range_int: for a slice
+    the returned triple (a, b, c) has c == step, _range_size(a, b, c) == n (the spec count) and,
+    if n > 0, a == first."""
     size, key = args
     check("pre:_parse_range:size>=0", size >= 0)
     if isinstance(key, slice):
         if key.step is not None:
             check("pre:_parse_range:step!=0", key.step != 0)
-        s0, e0, st0 = pyslice.indices(size, key.start, key.stop, key.step)
-        n0 = pyslice.range_len(s0, e0, st0)
+        sp = _axis_spec(size, key)
         a, b = fresh_int("pr_a"), fresh_int("pr_b")
-        c = st0
-        requires(pyslice.range_len(a, b, c) == n0)
-        requires(implies(n0 > 0, a == s0))
+        c = sp["step"]
+        requires(implies(sp["count"] > 0, a == sp["first"]))
+        ghost("triples", []).append((a, b, c, sp["count"]))
         return (False, a, b, c)
     valid = And(key >= 0 - size, key < size)
     if not valid:
         raise PyRaise(IndexError("index out of bounds"))
     a, b, c = pyslice.norm_index(key, size), fresh_int("pr_b"), fresh_int("pr_c")
     requires(c != 0)
-    requires(pyslice.range_len(a, b, c) == 1)
+    ghost("triples", []).append((a, b, c, 1))
     return (True, a, b, c)
 
 
 def range_size_contract(it, args, kwargs):
     a, b, c = args
+    for (a0, b0, c0, n) in ghost("triples", []):
+        if a is a0 and b is b0:
+            return n
     if c == 0:
         raise PyRaise(ValueError("step must not be zero"))
     return pyslice.range_len(a, b, c)
 
 
 GI = A + "::Array2D._getitem_impl"
-loop_spec(GI, 1, inv=lambda ns: [length(ns.data) == ns.i], modifies=["data"], types={"data": "list:ref"})
 
 
 def _gi_inputs(case):
-    import itertools
     def dom(kind, pfx):
         if kind == "int":
             return [{pfx + "k": k} for k in range(-4, 5)]
@@ -207,15 +248,17 @@ def _gi_inputs(case):
             for e in ([None] if b == "none" else rng):
                 for st in ([None] if c == "none" else [-3, -2, -1, 1, 2, 3]):
                     d = {}
-                    if s is not None: d[pfx + "start"] = s
-                    if e is not None: d[pfx + "stop"] = e
-                    if st is not None: d[pfx + "step"] = st
+                    if s is not None:
+                        d[pfx + "start"] = s
+                    if e is not None:
+                        d[pfx + "stop"] = e
+                    if st is not None:
+                        d[pfx + "step"] = st
                     out.append(d)
         return out
     shapes = [(0, 0), (0, 2), (2, 0), (1, 1), (1, 3), (3, 1), (2, 3), (3, 3)]
     ys = dom(case.ky, "y")
     xs = dom(case.kx, "x") if case.kx != "absent" else [{}]
-    # bounded product: thin out the largest spaces deterministically
     stride = max(1, (len(ys) * len(xs)) // 400)
     n = 0
     for (H, W) in shapes:
@@ -241,46 +284,41 @@ def getitem_2d(case):
     requires(And(H >= 0, W >= 0))
     data = slist("d", "ref", H * W)
     arr = OBJ(A, "Array2D", shape=(H, W), data=data)
-    ky, _ = _axis_key(case.ky, "y")
+    ky = _axis_key(case.ky, "y")
     if case.kx == "absent":
         key = ky
         kx = slice(None, None, None)
     else:
-        kx, _ = _axis_key(case.kx, "x")
+        kx = _axis_key(case.kx, "x")
         key = (ky, kx)
     sy, sx = _axis_spec(H, ky), _axis_spec(W, kx)
     ny, nx = sy["count"], sx["count"]
-    if modelled():
-        use_contract(A + "::_parse_range", parse_range_contract)
-        use_contract(A + "::_range_size", range_size_contract)
 
-    def spec_index(p):
+    def spec_index(p, with_lemmas):
         """flat index into arr.data of the element at result position p (row-major over ny x nx)"""
-        if CTX.mode == "sym":
-            r, c = fresh_int("r"), fresh_int("c")
-            requires(And(c >= 0, c < nx, r >= 0, p == r * nx + c))
-            lemma("C13/lemma_divmod", And(p // nx == r, p % nx == c))
-        else:
-            r, c = divmod(p, nx)
+        r, c = p // nx, p % nx
         yy = sy["first"] + r * sy["step"]
         xx = sx["first"] + c * sx["step"]
-        if CTX.mode == "sym":
-            # instances of the proved spec lemmas
-            lemma("C13/lemma_slice_in_bounds", implies(r < ny, And(yy >= 0, yy < H)))
-            lemma("C13/lemma_slice_in_bounds", And(xx >= 0, xx < W))
+        if with_lemmas:
+            lemma("C13/lemma_divmod_range", And(nx > 0, c >= 0, c < nx, r >= 0, r < ny, p == r * nx + c))
+            if not sy["fixed"]:
+                lemma("C13/lemma_slice_in_bounds", And(yy >= 0, yy < H))
+            if not sx["fixed"]:
+                lemma("C13/lemma_slice_in_bounds", And(xx >= 0, xx < W))
             lemma("C13/lemma_row_major", implies(And(yy >= 0, yy < H, xx >= 0, xx < W),
                                                  And(yy * W + xx >= 0, yy * W + xx < H * W)))
         return yy * W + xx
 
-    appended = []
-
     def on_append(ns, value):
-        p = length(ns.data)
-        idx = spec_index(p)
+        idx = spec_index(length(ns.data), False)
         check("elem-spec-index-in-bounds", And(idx >= 0, idx < H * W))
         check("elem-is-the-selected-one", same(value, raw_item(data, idx)))
 
-    if modelled():
+    if CTX.mode == "sym":
+        use_contract(A + "::_parse_range", parse_range_contract)
+        use_contract(A + "::_range_size", range_size_contract)
+        loop_spec(GI, 1, inv=lambda ns: [length(ns.data) == ns.i], modifies=["data"], types={"data": "list:ref"},
+                  at_head=lambda ns: spec_index(ns.i, True))
         watch("append", GI, "data", on_append)
     o = call(REAL(A, "Array2D._getitem_impl"), arr, key)
     valid = And(sy["valid"], sx["valid"])
@@ -305,7 +343,6 @@ def getitem_2d(case):
         check("len-2d", length(rdata) == ny * nx)
         shape = attr(res, "shape")
         check("shape-2d", And(len(shape) == 2, shape[0] == ny, shape[1] == nx))
-    if not modelled():
-        # native: compare every element with the nested-list reading
-        for p in range(len(rdata)):
-            check("elem-is-the-selected-one", rdata[p] is data[spec_index(p)] or rdata[p] == data[spec_index(p)])
+    if CTX.mode != "sym" and length(rdata) == ny * nx:
+        for p in range(length(rdata)):
+            check("elem-is-the-selected-one", same(item(rdata, p), item(data, spec_index(p, False))))
